@@ -11,6 +11,11 @@ CHECKS = {
          "Every encoder/decoder site is run on every u64 length-class boundary +-2, the dense range [0,2^24) (quick) / [0,2^32) (thorough), every boundary of i8..i128/u8..u128 and all 12.2M atoms of length <= 10 over {00,01,7f,80,ff}; the oracle is the harness's own minimal two's-complement codec. Exhaustive inside those sets; values above 2^32 away from boundaries are not covered.",
          "trusts: harness codec mc::sx::enc_*; sha2 crate; clvmr's Allocator for holding atoms",
          "DESIGN.md#c11"),
+ "C18": ("H", "model_checking",
+         "explicit-state BFS over operation histories of the real MerkleBlob with exact state keys, map + independent root recomputation as reference",
+         "Every operation sequence up to depth 6 over 3 keys (quick) / 4 keys (thorough) from the alphabet {insert at Auto/AsRoot/every block index and side, insert/upsert with a hash owned by another key, upsert, delete, every batch of <=2 (quick) / <=3 (thorough) entries, calculate_lazy_hashes, reload} is applied to the real blob; states are deduplicated on (blob bytes, free-list order). Transition oracle: Ok => contents equal the plain map after the op, Err => bytes/free list/contents unchanged, no panic. State invariant: check_integrity, reload equivalence, root == own bottom-up recomputation, every key has a proof that folds (own SHA-256) to the root.",
+         "trusts: hook H3 (free-list order), get_node/get_keys_values as observation of contents; Err is accepted for any operation as long as nothing changed (the property does not say which operations must succeed)",
+         "DESIGN.md#c18"),
 }
 
 PENDING_REASON = "check not built yet in this round (planned: see DESIGN.md section for this property); not claimed until it runs"
